@@ -63,7 +63,8 @@ def check(col: Collector, tier: str):
                         f"template {''.join(shape(ps))[:70]!r} appends `{nv[:6]}` to a value's C++ text by hand: the indirection of the value's type "
                         "is ignored; use base_type_member_access" if exc is None else f"frozen exception: {exc}", f"{f.module.rel}:{c.lineno}")
     col.info["value_followed_by_member_access"] = n_seen
-    for hname, name_expr in (("visit_Call_Member", "function_name"), ("visit_Attribute", "variable")):
+    # (E-NORM N15: a local that only names an access path - function_name = call_node.func.attr - is read as that path)
+    for hname, name_expr in (("visit_Call_Member", "call_node.func.attr"), ("visit_Attribute", "node.attr")):
         h = m.get(hname)
         if h is None:
             raise AnalysisError(f"{hname} not found")
@@ -86,7 +87,7 @@ def check(col: Collector, tier: str):
             col.add("C10.R1", h.short, "result-typed-by-the-declaration", ok, "collection-valued methods become cpp_collection, others cpp_value, both typed m_info.r_type", h.loc)
             tpl = defs_of(h.node, "v_name")
             sh = shape(parts(h.node, tpl[0])) if len(tpl) == 1 else []
-            ok = len(sh) == 5 and sh[0] == "{c_stub}" and sh[1] == "{function_name}" and sh[2] == "(" and "join" in sh[3] and sh[4] == ")"
+            ok = len(sh) == 5 and sh[0] == "{c_stub}" and sh[1] == "{call_node.func.attr}" and sh[2] == "(" and "join" in sh[3] and sh[4] == ")"
             col.add("C10.R1", h.short, "call-template", ok, f"{sh}", h.loc)
     # ------------------------------------------------------------ R2 fallback
     col.floor("C10.R2", 3)
@@ -165,9 +166,7 @@ def check(col: Collector, tier: str):
     col.floor("C10.R4", 3)
     ms = m["make_sequence_from_collection"]
     it = [c for c in ast.walk(ms.node) if isinstance(c, ast.Call) and call_name(c) == "cpp_value"]
-    et = defs_of(ms.node, "element_type")
-    ok = len(it) == 1 and src(it[0].args[2]) == "element_type" and len(et) == 1 and src(et[0]) == "cpp_type.element_type" and \
-        [src(d) for d in defs_of(ms.node, "cpp_type")] == ["rep.cpp_type()"]
+    ok = len(it) == 1 and src(it[0].args[2]) == "cpp_type.element_type" and [src(d) for d in defs_of(ms.node, "cpp_type")] == ["rep.cpp_type()"]
     col.add("C10.R4", ms.short, "iterator-has-the-element-type", ok, "the loop variable must be typed rep.cpp_type().element_type", ms.loc)
     lp = [c for c in ast.walk(ms.node) if isinstance(c, ast.Call) and call_name(c) == "loop"]
     cd = defs_of(ms.node, "collection")
@@ -222,10 +221,14 @@ def check(col: Collector, tier: str):
     vat = m["visit_Attribute"]
     pmv = parent_map(vat.node)
     calls = [c for c in ast.walk(vat.node) if isinstance(c, ast.Call) and call_name(c) == "value_as_cpp"]
-    ok = len(calls) == 1 and any(tr_ and src(t) == "variable in en.values" for t, tr_ in guards(vat.node, calls[0], pmv)) and src(calls[0].args[0]) == "variable"
+    ok = len(calls) == 1 and src(calls[0].args[0]) == "node.attr"
+    if ok:
+        holder = src(calls[0].func.value)          # <enum info>.value_as_cpp(node.attr) must stand under `node.attr in <enum info>.values`
+        ok = (f"node.attr in {holder}.values", True) in {(src(t), tr_) for t, tr_ in guards(vat.node, calls[0], pmv)}
     col.add("C10.R5", vat.short, "only-declared-values-render", ok, "an enum member is rendered only under `variable in en.values`; anything else falls to the final raise", vat.loc)
     ty = [c for c in ast.walk(vat.node) if isinstance(c, ast.Call) and call_name(c) == "terminal_enum_value"]
-    col.add("C10.R5", vat.short, "value-typed-as-enum", len(ty) == 1 and src(ty[0].args[0]) == "en", "", vat.loc)
+    col.add("C10.R5", vat.short, "value-typed-as-enum", len(ty) == 1 and src(resolve_name(vat.node, ty[0].args[0])) == "obj.enum",
+            "the value's type must be terminal_enum_value(<the enum the member was looked up in>)", vat.loc)
     de = repo.function("define_enum")
     s = src(de.node)
     col.add("C10.R5", de.short, "enum-registered-with-its-values-and-namespace", "ENumInfo(enum_name, enum_values, ns)" in s and "ns.enums[enum_name] = e" in s
